@@ -106,3 +106,48 @@ Theorem c06_copies_at_least_one : forall (sc m : list (Z * Z)) (a b : Z), wf m -
   exists x, In x m /\ inR a b x = true.
 Proof. exact copies_at_least_one. Qed.
 Print Assumptions c06_copies_at_least_one.
+
+(* ---------------------------------------------------------------------------------------------------------------
+   Refinement to what the run executes.  The judge Run/C06.v (sub 2) applies to the implementation's output is
+   Model/TrieCase.c06_ok: Replace's output must parse as u0 repl^k1 u1 ... repl^kn un over the maximal covered regions
+   ([regions], a byte scan over the specification's occurrence list [occs]) with 1 <= ki <= #occurrences inside region i
+   ([segments], [replace_ok_go]); ReplaceWithMask's output must equal [spec_mask] (rune by rune over [tokens]). *)
+From V Require Import Lib.Enc Model.TrieCase Proofs.TrieReplaceJudge Proofs.TrieReplaceJudgeTop.
+Local Open Scope Z_scope.
+
+(* byte level, any occurrence list oc and any intervals m: if m is disjoint, increasing, non-empty, inside the text, covers
+   exactly what oc covers and each interval contains an occurrence (what c06_merge_spec / c06_replace_total establish), the
+   executable parse accepts the splice *)
+Theorem c06_judge_accepts_splice : forall text repl (oc : list (nat * nat)) m,
+  goodz 0 (Z.of_nat (length text)) m ->
+  (forall i, covered m i <-> covered (map TrieMask.zz oc) i) ->
+  wf (map TrieMask.zz oc) ->
+  (forall x, In x m -> exists o, In o (map TrieMask.zz oc) /\ inside o x) ->
+  replace_ok_go repl (fst (segments text oc 0 (regions oc (length text)))) (snd (segments text oc 0 (regions oc (length text))))
+    (splicez text repl 0 m) = true.
+Proof. exact judge_replace_splice. Qed.
+Print Assumptions c06_judge_accepts_splice.
+
+(* for every pattern set and text (byte strings): Replace's output satisfies the judge's parse and ReplaceWithMask's output
+   IS the specification's masked text, in the reading the judge selects (mode_of) *)
+Theorem c06_model_satisfies_judge : forall ps text repl mask T, Forall is_bytes ps -> is_bytes text -> built ps T ->
+  (exists o, replace T text repl = Ok o /\ spec_replace_ok (mode_of ps) ps text repl o = true) /\
+  replace_with_mask T text mask = Ok (spec_mask (mode_of ps) ps text mask).
+Proof. exact model_accepted. Qed.
+Print Assumptions c06_model_satisfies_judge.
+
+(* on the integer encoding: c06_ok answers true on c06_model's output for every case of the form
+   Insert p1; ...; Insert pn; BuildFailureLinks; Replace / ReplaceWithMask text *)
+Theorem c06_judge_accepts_model : forall ps text repl mask, Forall is_bytes ps -> is_bytes text ->
+  let ops := map OInsert ps ++ [OBuild] in
+  c06_ok ops text repl mask (c06_model ops text repl mask) = true.
+Proof. exact judge_accepts_model. Qed.
+Print Assumptions c06_judge_accepts_model.
+
+(* ... and through the entry point the run calls: for every integer list that decodes as such a case, `entry 2` (the
+   judge) answers 1 on the case followed by `entry 0`'s (the model's) output *)
+Theorem c06_entry_judge_accepts_model : forall case ps text repl mask,
+  Run.C06.dec_case case = Some (map OInsert ps ++ [OBuild], text, repl, mask) -> Forall is_bytes ps -> is_bytes text ->
+  Run.C06.entry 2 (put_list case ++ put_list (Run.C06.entry 0 case)) = [1].
+Proof. exact entry_accepts_model. Qed.
+Print Assumptions c06_entry_judge_accepts_model.
